@@ -459,6 +459,69 @@ def _boundary_noise(inst, prof, Wp, b, pf, stable, relaxation=None):
     return noise, edge
 
 
+def _structured(rng, costs, B, ballots, W, b, P, stable, exh, k):
+    """Perturbations that KEEP the aggregates a lazy validator might check instead of the per-item conditions:
+       shiftproj  a voter moves d of her payment from one selected project to another one she approves
+                  (her spending, the grand total and every leftover unchanged; C3 broken on two projects)
+       shiftvoter d of the payment for one project moves from one supporter to another (project totals, grand
+                  total and the sum of leftovers unchanged; per-voter C2 / per-project C5, S5 change)
+       swapproj   the payment columns of two selected projects with different costs are swapped
+                  (per-voter spending and grand total unchanged; C3 broken on both)
+       scale      all payments and the voter budget are multiplied by a factor (ratios kept; C3 broken everywhere)
+    The Coq side classifies each variant (exact / broken by the margin / in between)."""
+    m, n = len(costs), len(ballots)
+    N = list(range(n))
+    big = [Fraction(1, 10), Fraction(1, 8), Fraction(1, 4), Fraction(1, 2), Fraction(1), Fraction(101, 1000)]
+
+    def cp():
+        return [list(r) for r in P]
+
+    def amount(have):
+        d = rng.choice(big)
+        if have >= Fraction(1, 10) and rng.random() < 0.8:
+            d = min(d, have)                 # stay non-negative: only the aimed-at condition breaks
+        return d
+    cands = []
+    Wl = list(W)
+    # shiftproj
+    opts = [(i, c1, c2) for i in N for c1 in Wl for c2 in Wl
+            if c1 != c2 and c1 in ballots[i] and c2 in ballots[i] and P[i][c1] > 0]
+    if opts:
+        i, c1, c2 = rng.choice(opts)
+        d = amount(P[i][c1])
+        Q2 = cp()
+        Q2[i][c1] -= d
+        Q2[i][c2] += d
+        cands.append(("shiftproj", W, b, Q2, stable, exh))
+    # shiftvoter
+    opts = [(c, i, j) for c in Wl for i in N for j in N
+            if i != j and c in ballots[i] and c in ballots[j] and P[i][c] > 0]
+    if opts:
+        c, i, j = rng.choice(opts)
+        d = amount(P[i][c])
+        Q2 = cp()
+        Q2[i][c] -= d
+        Q2[j][c] += d
+        cands.append(("shiftvoter", W, b, Q2, stable, exh))
+        # the same with the budget raised so that the receiver stays within it: leftovers move instead
+        cands.append(("shiftvoter_b", W, max(b, sum(Q2[j])), Q2, stable, exh))
+    # swapproj
+    opts = [(c1, c2) for c1 in Wl for c2 in Wl if c1 < c2 and costs[c1] != costs[c2]]
+    if opts:
+        c1, c2 = rng.choice(opts)
+        Q2 = cp()
+        for i in N:
+            Q2[i][c1], Q2[i][c2] = Q2[i][c2], Q2[i][c1]
+        cands.append(("swapproj", W, b, Q2, stable, exh))
+    # scale
+    if Wl:
+        f = rng.choice([Fraction(11, 10), Fraction(9, 10), Fraction(5, 4), Fraction(3, 4), Fraction(2), Fraction(1, 2),
+                        Fraction(201, 200)])
+        cands.append(("scale", W, b * f, [[x * f for x in row] for row in P], stable, exh))
+    rng.shuffle(cands)
+    return cands[:k]
+
+
 def _perturbations(rng, costs, B, ballots, W, b, P, stable, exh, k):
     """Variants of a price system, each aimed at one condition; the Coq side classifies them
     (exact / broken by the margin / in between)."""
@@ -853,7 +916,8 @@ def impl_relaxed(case):
         d = rng.choice(big if rng.random() < 0.7 else small)
         vq.append(("beta-", W, b, P, shifted(R, -d), exh))
         vq.append(("beta+", W, b, P, shifted(R, d), exh))
-        for tag, W2, b2, P2, st2, ex2 in _perturbations(rng, costs, B, ballots, W, b, P, True, exh, 2):
+        for tag, W2, b2, P2, st2, ex2 in (_perturbations(rng, costs, B, ballots, W, b, P, True, exh, 2)
+                                          + _structured(rng, costs, B, ballots, W, b, P, True, exh, 2)):
             if st2:
                 vq.append((tag, W2, b2, P2, R, ex2))
         for tag, W2, b2, P2, R2, ex2 in vq:
@@ -1032,15 +1096,18 @@ def impl_plain(case):
         W, b, P = wit
         vq.append(("lp_exact", W, b, P, stable, exh))
         vq += _perturbations(rng, costs, B, ballots, W, b, P, stable, exh, 4)
+        vq += _structured(rng, costs, B, ballots, W, b, P, stable, exh, 3)
     if mes_ps is not None:
         b0, P0 = mes_ps
         vq.append(("mes_exact", alloc, b0, P0, False, False))
         vq.append(("mes_exh", alloc, b0, P0, False, True))
         vq += _perturbations(rng, costs, B, ballots, alloc, b0, P0, False, False, 2)
+        vq += _structured(rng, costs, B, ballots, alloc, b0, P0, False, False, 2)
     Wq = alloc if alloc is not None else sorted(rng.sample(range(m), rng.randrange(0, m + 1)))
     bq, Pq = _equal_split(costs, ballots, Wq)
     vq.append(("split", Wq, bq, Pq, stable, exh))
     vq += _perturbations(rng, costs, B, ballots, Wq, bq, Pq, stable, exh, 1)
+    vq += _structured(rng, costs, B, ballots, Wq, bq, Pq, stable, exh, 2)
     for ev in case.get("extra_vals", []):      # explicit queries of corpus cases
         vq.append(("corpus", ev["W"], pb.F(ev["b"]), [[pb.F(x) for x in row] for row in ev["P"]],
                    bool(ev["stable"]), bool(ev["exh"])))
